@@ -1,6 +1,6 @@
 (* C06: save -> load / mmap round-trips to an observationally identical dictionary.
    Only statements closed by `exact`; proofs are in SerialFacts.v. *)
-From X Require Import Base Arr Dac Trie Serial SerialFacts Examples.
+From X Require Import Base Arr Dac Trie Serial Spec Wf IfaceBuild Builder SerialFacts All AllBuild Examples.
 Local Open Scope N_scope.
 
 (* every dictionary obtained from a byte file satisfies the shape predicate the theorems need *)
@@ -31,6 +31,12 @@ Proof. exact resave_mmap. Qed.
 Theorem C06_generations : forall v n P, trie_fits v P -> generation v n P = Ok (P, save v P).
 Proof. exact generations. Qed.
 
+(* headline: every dictionary built from a valid key list round-trips *)
+Theorem C06_for_all_valid_K : forall v tbl K req, valid_keys K = true -> small_keys K -> perm_okb tbl = true ->
+  exists P, build v tbl K req = Ok P /\
+  load v (save v P) = Ok P /\ (forall r, mmap v (save v P ++ r) = Ok P) /\ lenN (save v P) = memory_in_bytes v P.
+Proof. exact headline_roundtrip. Qed.
+
 (* non-vacuity: a built dictionary's file loads, so trie_fits is inhabited by a non-trivial structure *)
 Example C06_nonvacuous : exists P, load V8 (ex_bytes V8) = Ok P /\ t_nkeys P = 6 /\ trie_fits V8 P.
 Proof.
@@ -47,3 +53,4 @@ Qed.
 Print Assumptions C06_loaded_fits. Print Assumptions C06_mapped_fits. Print Assumptions C06_load_save.
 Print Assumptions C06_mmap_save. Print Assumptions C06_size. Print Assumptions C06_tag.
 Print Assumptions C06_resave_load. Print Assumptions C06_resave_mmap. Print Assumptions C06_generations.
+Print Assumptions C06_for_all_valid_K.
